@@ -127,6 +127,46 @@ CLAIMED = {
   note="Trusted: Lean kernel + standard axioms; harness; g++/stand-in for the C++ twins.",
   technique="Lean 4 proof (refinement to by-name spec; equivariance under injective renaming) + metamorphic correspondence",
   design="5 C13"),
+ "C14": dict(
+  text="Lean 4 theorems (FormakVerif.C14: ui_accepts_iff_valid, compile_accepts_iff_valid, ekf_accepts_iff_valid, refuses) prove, for every "
+       "definition skeleton whose dictionaries/sets have no duplicate keys, that the sequence of checks each entry point performs accepts "
+       "exactly the structurally valid definitions of the property (disjoint symbol sets, update keys = state, calibration keys = calibration "
+       "symbols, Symbol-keyed non-negative process noise for exactly the controls, sensor models over state and calibration only, sensor noise "
+       "matching sensors and readings). Tie: seeded valid definitions and every single fault kind K1-K18 (and pairs in thorough) through "
+       "ui.Model, python.compile, python.compile_ekf, cpp.compile, cpp.compile_ekf vs the property and vs the Lean accepts-functions; refused "
+       "C++ generations must leave no file.",
+  note="Trusted: Lean kernel + standard axioms; harness fault injector; 'refused' = any exception. Known finding (listed): Symbol-keyed sensors "
+       "with >=2 readings are refused.",
+  technique="Lean 4 proof (decision logic: accepts <=> valid) + exhaustive single-fault injection correspondence",
+  design="5 C14"),
+ "C15": dict(
+  text="Lean 4 theorems (FormakVerif.C15: skeleton_perm, layout_order_free, repeatable) prove that everything whose order the generator decides "
+       "(accessor slots, option fields / constructor order, Python arglist, sensor ids, reading slots) depends only on the sets of declared "
+       "names. Tie: sub-processes under different PYTHONHASHSEED x permuted declarations x set/list containers; sha256 of header and source, "
+       "Python arglist and reading order compared; the skeleton read from the generated text compared with the Lean skeleton.",
+  note="Trusted: Lean kernel + standard axioms; harness. Hash-seed independence of sympy's printers/cse is observed on the sampled seeds, not proven.",
+  technique="Lean 4 proof (permutation invariance of the sorted layout) + multi-process hash-seed / permutation differential",
+  design="5 C15"),
+ "C16": dict(
+  text="Lean 4 theorems (FormakVerif.C16: split_flatten, flatten_split, sliceRow_spec, transformRows_append, transformRows_length, "
+       "mahalanobis_flat, nis_nonneg, variance_term_min) prove that slicing a data row into controls and per-sensor readings is lossless and "
+       "exact for any sizes, that the transform is a fold whose prefix results never depend on later rows, that the Mahalanobis output is the "
+       "flattened transform, that every NIS is non-negative and that the variance term of the score is minimal at 1. Tie: transform vs the "
+       "exported filter driven by hand vs the Lean model (exact rationals on a row prefix); mahalanobis, score(explain_score=True) formula, "
+       "parameter identity before/after and repeated calls.",
+  note="Trusted: Lean kernel + standard axioms; harness; numpy; the exact Lean model is run on the first 2 rows only (rational size grows tenfold "
+       "per row), later rows are covered by the by-hand oracle.",
+  technique="Lean 4 proof (list slicing round-trip, fold composition) + by-hand replay and exact-model correspondence",
+  design="5 C16"),
+ "C17": dict(
+  text="Lean 4 theorems (FormakVerif.C17: get_set, set_config_field, set_param, unknown_refused, process_pos, sensor_pos, process_keys, "
+       "sensor_keys, flatten_inverse_process) prove for every parameter record that get-then-set is the identity, that a Config field name "
+       "changes exactly that field, that unknown names are refused, and that re-assembled noise maps name exactly the controls and sensors "
+       "with strictly positive magnitudes and round-trip through flatten. Tie: get/set/clone/every Config field/unknown keys and the private "
+       "flatten / inverse-flatten vs the Lean model; fit outcomes classified {returned, MinimizationFailure, other} with postconditions.",
+  note="Trusted: Lean kernel + standard axioms; harness; scipy.optimize.minimize and sklearn.clone are parameters.",
+  technique="Lean 4 proof (record algebra, clamp positivity, zip/lookup round-trip) + API correspondence and fit outcome classification",
+  design="5 C17"),
 }
 REASONS_TODO = "check not built yet in this round (see DESIGN.md section 10 build order); no claim is made"
 
